@@ -17,6 +17,7 @@ pub enum Verdict {
 
 /// parse with the real parser; a panic is data
 pub fn parse_verdict(text: &str) -> Verdict {
+    let _wd = crate::conn::watched("IDL::try_from", &[text.as_bytes().to_vec()]);
     let r = catch_unwind(AssertUnwindSafe(|| match IDL::try_from(text) {
         Ok(_) => Verdict::Accept,
         Err(PErr::Parse { line, column }) => Verdict::RejectParse { line, column },
@@ -363,6 +364,7 @@ pub fn run_ast(args: &[String]) {
                     emit(&json!({"fail": true, "case": i, "variant": variant, "detail": d, "sig": format!("{}#{}", mode, i), "input": c, "text": text}));
                 }
             };
+            let _wd = crate::conn::watched("IDL::try_from / get_multiline", &[text.as_bytes().to_vec()]);
             let parsed = catch_unwind(AssertUnwindSafe(|| IDL::try_from(text.as_str()).map(|idl| project(&idl))));
             let parsed = match parsed {
                 Err(_) => { fail(format!("style{}", st), "the parser panicked".into()); continue 'cases; }
